@@ -151,6 +151,12 @@ func (c *crashConn) check() {
 }
 
 func (c *crashConn) Do(cmd string, args ...interface{}) (interface{}, error) {
+	if cmd == "" && c.st.Crashed {
+		// the pooled connection's Close (Do("")) runs inside deferred functions of the
+		// dying broker code: as in the symbolic model it must not panic again, or the
+		// locks those functions release afterwards stay held
+		return nil, nil
+	}
 	c.check()
 	r, err := c.Conn.Do(cmd, args...)
 	c.check()
